@@ -21,6 +21,8 @@ def run(ctx):
                                               dict(module_rel="fc/FCKernel.tla", cfg_rel="fc/FCKernel_q3exit.cfg", workers=6, timeout=3000)]), par=4)
     deep = [("dfs", 6000 if q else 400000, 2 if q else 3)]
     jobs = make_jobs(ctx, "fc", VARIANTS, PROGRAMS) + make_jobs(ctx, "fc", VARIANTS[:4], DEEP, strat=deep)
+    rmw = [("random", 100 if q else 4000, 0), ("pct", 40 if q else 2000, 0)]      # decision points: read-modify-write accesses (the kernel mutex, list CASes) only
+    jobs += make_jobs(ctx, "fc", VARIANTS, PROGRAMS, strat=rmw, extra_of=lambda v: ["--points", "rmw"])
     vlib.run_jobs(ctx, jobs)
     vlib.validate_histories(ctx, jobs, "FcExec", CONSTS)
     ctx.impl_runs.append({"driver": "fc", "variants": VARIANTS, "programs": PROGRAMS + DEEP, "strategies": strategies(ctx)})
